@@ -184,3 +184,33 @@ Inductive rstmt :=
 
 (* ===== dstutil.Decorations listing (dstutil/decorations-generated.go) ================= *)
 Inductive ppart := PBefore | PAfter | PPoint (name field : string) | PUnknown (src : string).
+
+(* ===== Clone (clone-generated.go), statement by statement ============================= *)
+Inductive cstmt :=
+| KNew (ty : string) | KReturn
+| KSpace (owner : path) (after : bool)          (* out.O.Decs.Before/After = n.O.Decs.Before/After *)
+| KDec (owner : path) (point : string)          (* out.O.Decs.P = append(out.O.Decs.P, n.O.Decs.P...) *)
+| KAliasDec (owner : path) (point : string)     (* out.O.Decs.P = n.O.Decs.P : shares the backing array *)
+| KCopy (p : path)                              (* out.P = n.P *)
+| KNode (p : path) (ty : string)                (* if n.P != nil { out.P = Clone(n.P).(T) } *)
+| KList (p : path) (ty : string)                (* for _, v := range n.P { out.P = append(out.P, Clone(v).(T)) } *)
+| KInit (p : path) (ty : string)                (* out.P = &T{} *)
+| KObj (p : path) | KScope (p : path)           (* out.P = CloneObject(n.P) / CloneScope(n.P) *)
+| KMapNodes (p : path) | KMapObjs (p : path)
+| KUnknown (src : string).
+
+(* ===== gendst/data/data.go: the part list every generator reads ======================= *)
+Inductive dpart :=
+| DDec (name : string) (disabled : bool)
+| DSpecialDec (name : string) (decs : path) (isend : bool)
+| DPathDec (name : string)
+| DTok (name : string) (posfield : path)
+| DStr (name : string) (valfield posfield : path) (literal : bool)
+| DNode (name : string) (field : path)
+| DList (name : string) (field : path) (norestore : bool)
+| DMap (name : string) (field : path)
+| DBad (lenfield fromfield tofield : path)
+| DInit (name : string) (field : path)
+| DValue (name : string) (field : path)
+| DScope | DObject
+| DUnknown (src : string).
